@@ -875,9 +875,16 @@ pub extern "C" fn tsrun_call(
     };
 
     match ctx.interp.call_function(func_val, this_val, &args_vec) {
-        Ok(guarded) => TsRunValueResult::ok(TsRunValue::from_runtime_value(
-            crate::RuntimeValue::from_guarded(guarded),
-        )),
+        Ok(mut guarded) => {
+            // The callee may hand back an existing object without a guard (for example one
+            // of its arguments): the returned handle has to keep it alive on its own.
+            if guarded.guard.is_none() {
+                guarded.guard = ctx.interp.guard_value(&guarded.value);
+            }
+            TsRunValueResult::ok(TsRunValue::from_runtime_value(
+                crate::RuntimeValue::from_guarded(guarded),
+            ))
+        }
         Err(e) => TsRunValueResult::err(ctx, e.to_string()),
     }
 }
@@ -945,9 +952,16 @@ pub extern "C" fn tsrun_call_method(
 
     let this_val = JsValue::Object(obj_ref.cheap_clone());
     match ctx.interp.call_function(method_val, this_val, &args_vec) {
-        Ok(guarded) => TsRunValueResult::ok(TsRunValue::from_runtime_value(
-            crate::RuntimeValue::from_guarded(guarded),
-        )),
+        Ok(mut guarded) => {
+            // The callee may hand back an existing object without a guard (for example one
+            // of its arguments): the returned handle has to keep it alive on its own.
+            if guarded.guard.is_none() {
+                guarded.guard = ctx.interp.guard_value(&guarded.value);
+            }
+            TsRunValueResult::ok(TsRunValue::from_runtime_value(
+                crate::RuntimeValue::from_guarded(guarded),
+            ))
+        }
         Err(e) => TsRunValueResult::err(ctx, e.to_string()),
     }
 }
